@@ -154,7 +154,7 @@ class C18(World):
                 op = ops.choices([k for k, _ in cand], [x for _, x in cand])[0]
                 if op == "solve" and args.random() < 0.4:
                     # re-solve the same operating point with ONE argument changed (resolved at execution from the object's last request)
-                    st = dict(op="solve_variant", field=args.choice(["Q", "Q", "eta", "dT_sh", "dT_sc", "Te", "Tc"]), v=args.choice([0, 1, 2]))
+                    st = dict(op="solve_variant", field=args.choice(["Q", "Q", "eta", "dT_sh", "dT_sc", "Te", "Tc", "refrigerant", "refrigerant"]), v=args.choice([0, 1, 2]))
                 elif op == "solve":
                     st = gen_solve()
                     if args.random() < 0.15:
@@ -219,7 +219,10 @@ class C18(World):
             try:
                 hv = CP.PropsSI("H", "P", P[1], "Q", 1, fl)
                 if H[1] <= hv + 1e-9 * abs(hv) + 1e-6:
-                    flags.append("wet_discharge")  # compressor discharge at or inside the saturation dome
+                    hl = CP.PropsSI("H", "P", P[1], "Q", 0, fl)
+                    # at or inside the dome.  Two-phase discharge (between the saturated-liquid and -vapour enthalpies) is what
+                    # the profile code has a guard for; a discharge at or below the saturated-LIQUID enthalpy is not a compression at all
+                    flags.append("two_phase_discharge" if H[1] > hl + 1e-9 * abs(hl) + 1e-6 else "wet_discharge")
             except Exception:
                 flags.append("no_sat_at_Pcond")
             try:
@@ -333,7 +336,7 @@ class C18(World):
                 tot = sum(x[3] for x in part)
                 if not abs(tot - total) <= 1e-6 * max(abs(c.Q_cond), abs(total), 1e-12):
                     V(label + "_duty", s, step, f"{label} streams carry {tot!r}, cycle reports {total!r} ({len(part)} streams, history {pat!r})")
-                tick("monotone")
+                tick("monotone_" + label)
                 ok = True
                 for x in part:
                     if (label == "cond" and not x[1] > x[2]) or (label == "evap" and not x[1] < x[2]):
@@ -347,7 +350,7 @@ class C18(World):
                     if label == "evap" and not (y[1] >= x[1] - 1e-5 and abs(y[1] - x[2]) <= 0.011):
                         ok = False
                 if not ok:
-                    V("monotone", site(o, "streams"), step, f"{label} streams not monotone/contiguous: {[(round(x[1], 3), round(x[2], 3), x[3]) for x in part]}")
+                    V("monotone_" + label, site(o, "streams"), step, f"{label} streams not monotone/contiguous: {[(round(x[1], 3), round(x[2], 3), x[3]) for x in part]}")
                 if m["regime"] == "regular" and part:
                     tick("profile_ends")
                     Tk = list(c.Ts)
@@ -389,6 +392,10 @@ class C18(World):
                         a["Q"] = [250.0, 1.0, 37.5][k] if a["Q"] != [250.0, 1.0, 37.5][k] else 10.0
                     elif f == "eta":
                         a["eta"] = [0.6, 0.85, 1.0][k] if a["eta"] != [0.6, 0.85, 1.0][k] else 0.75
+                    elif f == "refrigerant":
+                        # same temperatures, another fluid on the same object
+                        pool = [x for x in ["Ammonia", "R134a", "n-Propane", "IsoButane", "R32", "Water", "R1234yf"] if x != a["refrigerant"]]
+                        a["refrigerant"] = pool[k % len(pool)]
                     elif f in ("dT_sh", "dT_sc"):
                         a[f] = [0.0, 2.0, 5.0][k] if a[f] != [0.0, 2.0, 5.0][k] else 3.0
                     else:
